@@ -50,9 +50,23 @@ func (r *Run) realBinder(op Op) {
 				_ = r.Binder.Sync()
 				continue
 			}
-			if err != nil {
+			// a failed attempt is recognised by its effect (the pod is still unbound and the request did not succeed), not by
+			// the error value: the reconciler swallows the error when it decides that the status needs no update
+			failedNow := err != nil
+			if c := getBR(r.API, br.Name); c != nil && c.Status.Phase != bindv1alpha2.BindRequestPhaseSucceeded {
+				if p := r.API.Pod(br.Namespace, br.Spec.PodName); p != nil && p.Spec.NodeName == "" && p.DeletionTimestamp == nil {
+					failedNow = true
+				}
+			}
+			if failedNow {
 				r.brFailed[key]++
 				r.Probe("rbinder_failed_reconciles")
+				if r.brFailed[key] >= 2 {
+					r.Probe("rbinder_repeated_failure_same_request")
+					if c := getBR(r.API, br.Name); c != nil && c.Spec.BackoffLimit != nil && *c.Spec.BackoffLimit >= 2 {
+						r.Probe("rbinder_repeated_failure_with_limit_ge2")
+					}
+				}
 				cur := getBR(r.API, br.Name)
 				if cur != nil {
 					// persisted attempt count = failed attempts so far (capped by the limit)
